@@ -73,6 +73,10 @@ class Run:
         self.dtrace = []; self.cbdepth = 0; self.lastsub = None; self.npull = 0
         self.clock = 0.0
         self.notes = []
+        self.blog = []          # backend life-cycle protocol trace (BackendProtocol.tla)
+
+    def bev(self, ev, **kw):
+        self.blog.append(dict(ev=ev, **kw))
 
     def choose(self, kind, n, info=None):
         if n <= 1:
@@ -109,11 +113,13 @@ class Run:
             def effective_n_jobs(s, n_jobs): return nj
 
             def configure(s, n_jobs=1, parallel=None, **kw):
-                s.parallel = parallel; s.log.append("configure"); return nj
+                s.parallel = parallel; s.log.append("configure")
+                if not getattr(s, "_in_abort", False): R.bev("Configure")
+                return nj
 
-            def start_call(s): s.log.append("start_call")
+            def start_call(s): s.log.append("start_call"); R.bev("StartCall")
 
-            def stop_call(s): s.log.append("stop_call")
+            def stop_call(s): s.log.append("stop_call"); R.bev("StopCall")
 
             def _shutdown_point(s, kind):
                 # while a real pool shuts down, tasks that are already running may still finish and have their
@@ -126,14 +132,16 @@ class Run:
                     s.complete(ready[c - 1])
 
             def terminate(s):
-                s.log.append("terminate"); s._shutdown_point("term")
+                s.log.append("terminate"); R.bev("Terminate"); s._shutdown_point("term")
 
             def abort_everything(s, ensure_ready=True):
-                s.log.append("abort")
+                s.log.append("abort"); R.bev("Abort", ready=bool(ensure_ready))
                 # a real pool cannot recall what already runs; queued work may or may not run: keep pending
                 s._shutdown_point("abort")
                 if ensure_ready:
-                    s.configure(n_jobs=s.parallel.n_jobs, parallel=s.parallel)
+                    s._in_abort = True
+                    try: s.configure(n_jobs=s.parallel.n_jobs, parallel=s.parallel)
+                    finally: s._in_abort = False
 
             if not auto:
                 # scripted batch sizes; with cfg["autobatch"] the real AutoBatchingMixin decides, fed with scripted durations
@@ -147,7 +155,7 @@ class Run:
                 f = Fut()
                 idx = [it[1][0] for it in func.items]; tag = func.items[0][1][1]
                 lo, hi = min(idx), max(idx) + 1
-                R.ev(ev="Submit", c=tag, lo=lo, hi=hi)
+                R.ev(ev="Submit", c=tag, lo=lo, hi=hi); R.bev("Submit")
                 if R.cbdepth == 0:
                     R.dtrace.append(dict(ev="Sub", lo=lo, hi=hi))
                 else:
@@ -269,10 +277,13 @@ class Run:
         jp.time = types.SimpleNamespace(time=lambda: R.clock, sleep=lambda t: sched_point("sleep"))
         try:
             if cfg["managed"] is True:
+                R.bev("Enter")
                 with p:
                     self._calls(p, be, idle)
+                R.bev("Exit")
             else:
                 self._calls(p, be, idle)
+            R.bev("Done")
         finally:
             jp.time = saved_time
         self.backend_log = be.log
@@ -325,7 +336,8 @@ class Run:
             inside = False
             try:
                 if per_call:
-                    p.__enter__(); inside = True
+                    R.bev("Enter"); p.__enter__(); inside = True
+                R.bev("Call", gen=cfg["mode"] != "list")
                 r = p(It(callno))
                 if cfg["mode"] == "list":
                     for x in r:
@@ -347,13 +359,15 @@ class Run:
                             # the run is abandoned (aborted); calling the object again must still be rejected
                             # as long as the generator lives, and the generator must end cleanly
                             R.ev(ev="Close")
-                            inside = False; p.__exit__(None, None, None)
+                            inside = False; p.__exit__(None, None, None); R.bev("Exit")
                             try:
+                                R.bev("Probe")
                                 r2 = p(iter(()))
                                 R.ev(ev="Overlap")
                                 for _ in r2: pass
+                                R.bev("ProbeEnd", ok=True)
                             except RuntimeError:
-                                R.ev(ev="Rejected")
+                                R.ev(ev="Rejected"); R.bev("ProbeEnd", ok=False)
                             gen.close()
                             kind = "closed"; break
                         if act == 1:
@@ -362,11 +376,13 @@ class Run:
                         if act == 2:
                             # probe: call the object again while the generator is alive (empty input)
                             try:
+                                R.bev("Probe")
                                 r2 = p(iter(()))
                                 R.ev(ev="Overlap")
                                 for _ in r2: pass
+                                R.bev("ProbeEnd", ok=True)
                             except RuntimeError:
-                                R.ev(ev="Rejected")
+                                R.ev(ev="Rejected"); R.bev("ProbeEnd", ok=False)
                             continue
                         R.ev(ev="Next"); R.dtrace.append(dict(ev="Next"))
                         try:
@@ -391,6 +407,8 @@ class Run:
                     p.__exit__(None, None, None)
                 except BaseException as e:
                     kind = "other:exit:" + type(e).__name__
+                R.bev("Exit")
+            R.bev("End", kind=(kind or "none").split(":")[0])
             R.ev(ev="End", kind=kind, i=ei)
             R.dtrace.append(dict(ev="End", kind=kind, n=nres))
             if kind == "hang":
@@ -443,3 +461,18 @@ def random_runs(cfg, count, rng, on_run=None, bias=0.5):
             warnings.simplefilter("ignore")
             r = Run(cfg, chooser).execute()
         if on_run: on_run(r, [c for _, c, _ in r.choices])
+
+
+def protocol_trace(blog):
+    """the backend life-cycle log in the vocabulary of BackendProtocol.tla: an accepted probe is a Call ... End(returned),
+    a rejected one is the single event Rejected (at the point where the RuntimeError was raised)"""
+    out = []
+    for k, e in enumerate(blog):
+        if e["ev"] == "Probe":
+            ok = next((x["ok"] for x in blog[k + 1:] if x["ev"] == "ProbeEnd"), False)
+            if ok: out.append(dict(ev="Call", gen=True))
+        elif e["ev"] == "ProbeEnd":
+            out.append(dict(ev="End", kind="returned") if e["ok"] else dict(ev="Rejected"))
+        else:
+            out.append(e)
+    return out
